@@ -279,15 +279,19 @@ void harness(void)
     HARNESS_BEGIN();
     sym_inputs();
     { uint8_t nd[CTX_SIZE]; memcpy(ctx, nd, CTX_SIZE); }
+    /* representation invariants: keystream offset within the batch, a round count the API can produce (concrete: a
+       symbolic count would make an implementation that wrongly proceeds loop over it) */
 #if VEC
     o.vtable = (const void *)1; ASSUME(V_OFF(ctx) <= B);
 #else
     o.vtable = &GEN_VT; ASSUME(((GCTX_T *)ctx)->offset <= B);
-#if CIPHER != 3
-    ASSUME(((GCTX_T *)ctx)->kt.ks.rounds <= MAXR);
-#else
-    ASSUME(((GCTX_T *)ctx)->ks.rounds <= MAXR);
 #endif
+#if CIPHER == 3
+    ((MantisKey_t *)ctx)->rounds = 5;
+#elif CIPHER == 1
+    ((Skinny128Key_t *)ctx)->rounds = 48;
+#else
+    ((Skinny64Key_t *)ctx)->rounds = 36;
 #endif
     o.ctx = ctx; before = o; memcpy(ctxb, ctx, CTX_SIZE); SYM_U8A(out); memcpy(outb, out, sizeof out);
     int r = -1;
